@@ -227,3 +227,8 @@ def run(ctx, rep) -> None:
     rep.rule("C05.6", "the masked parameter blocks handed to the update are re-derived whenever the set of gradients changes (guard on the selector itself, never on a count)")
     rep.attempt("_change_guards", _change_guards, ctx, rep, "C05.6")
     rep.assume("merge_small_dims arithmetic, exact-once coverage, row-major order, the block-size bound and the invariance 'optimising blocks = optimising separate parameters' need execution and are NOT decided")
+    from .c01 import inverse_root_selection
+
+    rep.rule("C05.8", "merging and blocking do not change the math of a block: each block gets the inverse root of its own order (the block's number of dimensions after merging), selected as documented")
+    rep.attempt("inverse_root_selection", inverse_root_selection, ctx, rep, "C05.8")
+
